@@ -2,7 +2,7 @@
     (recent, frequent, ghost) in one heap.  Written over the heap-level primitives exactly as the
     Rust code is written over RawLRU, including its own unsafe blocks (the ghost hit: [map.remove] +
     [detach], [swap] of the value, [Box::from_raw] of the node the ghost list pushed out). *)
-From VF Require Import Base Heap.
+From VF Require Import Base Iter Heap HeapIterDef.
 From Coq Require Import List Arith.
 Import ListNotations.
 Local Open Scope nat_scope.
@@ -163,7 +163,12 @@ Definition ht_drop (h : heap) (s : htwoq) : hres heap :=
 
 Inductive qop :=
 | QPut (k : key) (v : val) | QGetMut (k : key) (w : option val) | QPeek (k : key)
-| QPeekMut (k : key) (w : option val) | QContains (k : key) | QRemove (k : key) | QPurge.
+| QPeekMut (k : key) (w : option val) | QContains (k : key) | QRemove (k : key) | QPurge
+| QIter (i : Z) (kd : iter_kind) (pre pa pb : list req).   (* the iterators over one of the three lists *)
+
+Definition tq_list (s : htwoq) (i : Z) : option hlru :=
+  if Z.eqb i 0 then Some (tq_r s) else if Z.eqb i 1 then Some (tq_f s)
+  else if Z.eqb i 2 then Some (tq_g s) else None.
 
 Definition ht_step (h : heap) (s : htwoq) (o : qop) : hres (heap * htwoq * hout) :=
   match o with
@@ -174,6 +179,11 @@ Definition ht_step (h : heap) (s : htwoq) (o : qop) : hres (heap * htwoq * hout)
   | QContains k => hdo b <- ht_contains h s k; HOk (h, s, OBool b)
   | QRemove k => hdo (h1, s1, r) <- ht_remove h s k; HOk (h1, s1, OVal r)
   | QPurge => hdo (h1, s1) <- ht_purge h s; HOk (h1, s1, OUnit)
+  | QIter i kd pre pa pb =>
+    match tq_list s i with
+    | Some ql => hdo (h1, ys) <- h_iter_script h ql kd pre pa pb; HOk (h1, s, OIter kd ys)
+    | None => HOk (h, s, OUnit)
+    end
   end.
 
 Fixpoint ht_run (h : heap) (s : htwoq) (os : list qop) : hres (heap * htwoq * list hout) :=
